@@ -115,6 +115,15 @@ KERNELS = [
          self_tree=True, uses=["find_end_subtree_from_i"]),
     dict(name="Tree_concat", file="base/_tree.py", cls="Tree", func="concat", params=[("index", "Int"), ("other_tree", "Tree")], ret="Tree",
          self_tree=True, tree_methods={"subtree_id": "Tree_subtree_id"}),
+    # ---- Tree.__call__: the stack machine over the reversed node list (values are identifiers; applying a function symbol to its popped
+    #      arguments and reading a terminal's value are function parameters on node identifiers)
+    dict(name="Tree_call", file="base/_tree.py", cls="Tree", func="__call__", params=[], ret="Int", self_tree=True,
+         node_preds={"FunctionalNode": "isFunctional"}, node_attrs={"_n_args": "nodeArity", "_value": "valueOf"},
+         star_call={"node._value": "applyFn"}, node_names=["node"]),
+    # ---- Tree.__str__: the same stack machine with the formatter of a function symbol and the name of a terminal (strings are identifiers)
+    dict(name="Tree_str", file="base/_tree.py", cls="Tree", func="__str__", params=[], ret="Int", self_tree=True,
+         node_preds={"FunctionalNode": "isFunctional"}, node_attrs={"_n_args": "nodeArity", "_name": "nameOf"},
+         star_call={"node._value._write": "writeFn"}, node_names=["node"]),
     # ---- the integer counting loops of the classification metrics (the float tail - per-class ratios and their mean - is
     #      not translated: `until` names the first statement that is left out, `returns` the arrays handed back)
     dict(name="recall_counts", file="utils/_metrics.py", func="recall_score", params=[("y_true", "Arr"), ("y_predict", "Arr")], ret="Mat",
@@ -1055,6 +1064,14 @@ class Tr:
     def E(self, e, env) -> str:
         if id(e) in env:
             return env[id(e)]
+        if isinstance(e, ast.Call) and ast.unparse(e.func) in self.cfg.get("star_call", {}) and len(e.args) == 1 and isinstance(e.args[0], ast.Starred) and not e.keywords:
+            # <node>.<attr>(*args): the symbol of the node applied to the list of its arguments (a function parameter on identifiers)
+            recv = e.func
+            while isinstance(recv, ast.Attribute):
+                recv = recv.value
+            if not (isinstance(recv, ast.Name) and recv.id in self.cfg.get("node_names", []) and self.ty(e.args[0].value) == "Arr"):
+                raise NotRecognised("starred call operands")
+            return f"({self.cfg['star_call'][ast.unparse(e.func)]} {self.E(recv, env)} {self.E(e.args[0].value, env)})"
         if self.cfg.get("opaque_exprs") and isinstance(e, ast.AST) and not isinstance(e, (ast.Name, ast.Constant)) and ast.unparse(e) in self.cfg["opaque_exprs"]:
             return self.cfg["opaque_exprs"][ast.unparse(e)]
         if isinstance(e, ast.Constant):
@@ -1097,6 +1114,8 @@ class Tr:
             if e.attr == "size" and self.ty(e.value) == "Arr":
                 return f"(Imp.leni {self.E(e.value, env)})"
             if e.attr in self.node_attrs and self._safe_ty(e.value) == "Int" and not isinstance(e.value, ast.Name):
+                return f"({self.node_attrs[e.attr]} {self.E(e.value, env)})"
+            if e.attr in self.node_attrs and isinstance(e.value, ast.Name) and e.value.id in self.cfg.get("node_names", []) and self.locals.get(e.value.id) == "Int":
                 return f"({self.node_attrs[e.attr]} {self.E(e.value, env)})"
             raise NotRecognised(f"attribute {ast.unparse(e)}")
         if isinstance(e, ast.BinOp):
@@ -1641,6 +1660,13 @@ class Tr:
                 L.append(f"(Imp.forRange {lo} (Imp.leni {a}) (fun s => s.brk) (fun i s =>\n{pad}  let s := {{ s with {v} := Imp.geti {a} i }}\n{body}) s)")
                 L.append("{ s with brk := false }")
                 return L
+            if isinstance(it, ast.Call) and isinstance(it.func, ast.Name) and it.func.id == "reversed" and len(it.args) == 1 and not it.keywords \
+                    and self.tree_attr(it.args[0]) is not None and self.tree_attr(it.args[0]).startswith("self_"):
+                # for x in reversed(self._nodes): the body cannot change what is iterated (a Tree's arrays are not assigned in a translated method)
+                a = self.tree_attr(it.args[0])
+                L.append(f"(Imp.forRange (0 : Int) (Imp.leni {a}) (fun s => s.brk) (fun i s =>\n{pad}  let s := {{ s with {v} := Imp.geti {a} (Imp.leni {a} - 1 - i) }}\n{body}) s)")
+                L.append("{ s with brk := false }")
+                return L
             r = self.rng(it, {})
             if r[0] == "down":
                 env = self.pre(list(it.args[:2]), L)
@@ -1806,6 +1832,7 @@ class Tr:
         extra += "".join(f" ({v[0]} : " + "List Int → " * len(v[1]) + "Nat → List (List Int))" for v in cfg.get("effects_arr", {}).values())
         extra += "".join(f" ({par} : Int → List (List Int))" for par in self.tree_ext_fn.values())
         extra += "".join(f" ({par} : Int → Bool)" for par in self.node_preds.values())
+        extra += "".join(f" ({par} : Int → List Int → Int)" for par in cfg.get("star_call", {}).values())
         extra += "".join(f" ({par} : Int → Int)" for par in self.node_attrs.values())
         extra += "".join(f" ({par} : " + "".join(LTY[t] + " → " for t in tys) + "Nat → Int)" for par, tys in self.opaque_fn.values())
         extra += "".join(f" ({v[1]} : {LTY[v[2]] if len(v) > 2 else 'List Int'})" for v in self.opaque_if.values())
